@@ -473,6 +473,8 @@ def run_property(prop, tier, seed, jobs=None, only_family=None):
         for k in fam_tot:
             totals[k] += fam_tot[k]
         totals["cases"] += len(cases)
+        print(f"  [{prop} {tier}] family {fam.name}: cases={len(cases)} paths={fam_tot['paths']} queries={fam_tot['checks']} solver_s={fam_tot['tsolve']:.1f} "
+              f"unknown={fam_tot['unknown']} wall={time.time() - tf:.1f}s", flush=True)
         samples += fam_samples[:2]
         ev_fams.append({
             "family": fam.name, "engine": fam.engine, "cases": len(cases), **{k: (round(v, 2) if isinstance(v, float) else v) for k, v in fam_tot.items()},
